@@ -16,6 +16,7 @@ import ElfiVerif.Drive.C08
 import ElfiVerif.Drive.C07
 import ElfiVerif.Drive.C10
 import ElfiVerif.Drive.C11
+import ElfiVerif.Drive.C20
 
 /-!
 Line-protocol driver: one JSON request per line on stdin (`{"op": "<Cxx.name>", …}`), one JSON answer
@@ -33,7 +34,7 @@ def allHandlers : List (String × H) :=
   ElfiVerif.Drive.C03.handlers ++ ElfiVerif.Drive.C02.handlers ++
   ElfiVerif.Drive.C16.handlers ++ ElfiVerif.Drive.C17.handlers ++
   ElfiVerif.Drive.C08.handlers ++ ElfiVerif.Drive.C07.handlers ++
-  ElfiVerif.Drive.C10.handlers ++ ElfiVerif.Drive.C11.handlers
+  ElfiVerif.Drive.C10.handlers ++ ElfiVerif.Drive.C11.handlers ++ ElfiVerif.Drive.C20.handlers
 
 def handleLine (line : String) : String :=
   match Json.parse line with
